@@ -5,7 +5,8 @@ DESCRIPTION = {
     "level": "fault_enumeration",
     "rule": ("Hypothesis draws a router conversation that follows the WAMP session state machine (0-2 CHALLENGE rounds, then WELCOME or ABORT, later a GOODBYE from either "
              "side), local leave()/disconnect() calls, requests of the six kinds issued while joined (left outstanding or answered), user callback behaviours for "
-             "onChallenge/onWelcome/onJoin/onLeave/onDisconnect in {return, return a pending result resolved later, raise after the base implementation ran}, and at most one "
+             "onChallenge/onWelcome/onJoin/onLeave/onDisconnect in {return, return a pending result resolved later, raise after the base implementation ran; onLeave additionally: an override that only disconnects, and an "
+             "override that re-enters leave() before disconnecting}, optionally request errbacks that call leave() (local leave requests made while the session is ending), and at most one "
              "message that is illegal in the current phase at a drawn position; every history is re-run with transport loss injected after each prefix (fault enumeration). "
              "Oracle: the callback log matches connect? join? leave? disconnect? in that order, each at most once; leave fired exactly once when a joined session ended or the "
              "router aborted; the illegal message raises ProtocolError and is not acted on; GOODBYE written at most once and a peer GOODBYE answered iff we had not sent one; once "
